@@ -307,6 +307,14 @@ func runC20Scenario(c *Ctx, bin string, sc c20Scenario, idx int) (res c20Result)
 			default:
 			}
 			w, p, _ := childrenOf(master)
+			if w > sc.maxP {
+				// the process table is not read atomically: a worker seen alive at the start
+				// of the scan and its replacement seen at the end were never alive together.
+				// An overshoot counts when an immediate second scan sees it too
+				if w2, p2, _ := childrenOf(master); w2 < w {
+					w, p = w2, p2
+				}
+			}
 			smu.Lock()
 			samples = append(samples, sample{time.Now().UnixNano(), w, p})
 			smu.Unlock()
@@ -325,6 +333,9 @@ func runC20Scenario(c *Ctx, bin string, sc c20Scenario, idx int) (res c20Result)
 	var recs []reqRec
 	var cwg sync.WaitGroup
 	url := fmt.Sprintf("http://127.0.0.1:%d/", port)
+	// how long a stalled connection may stay open before it is called "never closed": far beyond
+	// --timeout, so that a machine under load does not decide the verdict
+	stallWait := 60 * time.Second
 	for ci := 0; ci < sc.clients; ci++ {
 		cwg.Add(1)
 		go func(ci int) {
@@ -380,10 +391,10 @@ func runC20Scenario(c *Ctx, bin string, sc c20Scenario, idx int) (res c20Result)
 						} else {
 							conn.Write([]byte("POST /?t=" + rec.tok + " HTTP/1.1\r\nHost: x\r\nContent-Type: application/json\r\nContent-Length: 64\r\n\r\n{\"VarInpu"))
 						}
-						conn.SetReadDeadline(time.Now().Add(time.Duration(6*sc.timeout) * time.Second))
+						conn.SetReadDeadline(time.Now().Add(stallWait))
 						_, rerr := io.ReadAll(conn)
 						if ne, ok := rerr.(net.Error); ok && ne.Timeout() {
-							rec.err = fmt.Sprintf("held: the connection was still open %d s after the request stalled (--timeout %d s)", 6*sc.timeout, sc.timeout)
+							rec.err = fmt.Sprintf("held: the connection was still open %d s after the request stalled (--timeout %d s)", int(stallWait/time.Second), sc.timeout)
 						}
 						conn.Close()
 					} else {
@@ -549,6 +560,14 @@ waitClients:
 			lastSet = set
 			stableSince = time.Now()
 		} else if time.Since(stableSince) > 1500*time.Millisecond && atomic.LoadInt64(&outstanding) == 0 {
+			// "returns to at least --init-procs once the system is quiet": a pool that is
+			// still short of a worker is given the rest of the 60 s to get it (on a loaded
+			// machine a replacement can take seconds to show up); only the state it settles in
+			// is judged
+			if w < minInt(sc.initP, sc.maxP) && time.Until(qdeadline) > 2*time.Second {
+				time.Sleep(25 * time.Millisecond)
+				continue
+			}
 			res.quiescent = true
 			res.liveQuiet = w
 			break
